@@ -160,12 +160,12 @@ Proof.
   - destruct (IH H) as [v Hv]. discriminate.
 Qed.
 
-Lemma mget_render k sub t : mget k (render sub t) = option_map (resolve sub) (tmpl_get k t).
+Lemma mget_render k q t : mget k (render q t) = option_map (resolve q) (tmpl_get k t).
 Proof.
   unfold render. rewrite mget_merge, tmpl_get_map. destruct (tmpl_get k t); reflexivity.
 Qed.
 
-Lemma render_nodup sub t : NoDup (map fst (render sub t)).
+Lemma render_nodup q t : NoDup (map fst (render q t)).
 Proof. unfold render. apply merge_nodup. constructor. Qed.
 
 (* ------------------------------------------------------------------ Sign: system claims win *)
@@ -178,7 +178,7 @@ Lemma sign_ok_inv st iss sub ttl now jti custom t :
   sign st iss sub ttl now jti custom = Ok t ->
   can_sign (j_alg (s_jwk st)) (s_key st) = true /\
   t = {| t_alg := j_alg (s_jwk st); t_kid := j_kid (s_jwk st); t_typ := "JWT"; t_key := s_key st;
-         t_claims := sys_claims iss sub ttl now jti (merge custom []) |}.
+         t_claims := sys_claims iss sub ttl now jti (merge custom []); t_hdr := "" |}.
 Proof.
   unfold sign. destruct (can_sign (j_alg (s_jwk st)) (s_key st)); simpl; intro H; [|discriminate].
   inversion H. split; reflexivity.
@@ -445,16 +445,16 @@ Proof.
   - reflexivity.
 Qed.
 
-Definition custom_of (c : config) (sub : string) : cmap :=
-  match c_claims c with Some t => render sub t | None => [] end.
+Definition custom_of (c : config) (q : req) : cmap :=
+  match c_claims c with Some t => render q t | None => [] end.
 
-Lemma custom_of_nodup c sub : NoDup (map fst (custom_of c sub)).
+Lemma custom_of_nodup c q : NoDup (map fst (custom_of c q)).
 Proof. unfold custom_of. destruct (c_claims c); [apply render_nodup | constructor]. Qed.
 
-Lemma mget_custom c sub k :
-  mget k (merge (custom_of c sub) []) = option_map (resolve sub) (tmpl_get k (tmpl_of c)).
+Lemma mget_custom c q k :
+  mget k (merge (custom_of c q) []) = option_map (resolve q) (tmpl_get k (tmpl_of c)).
 Proof.
-  rewrite mget_merge, (tmpl_get_nodup k _ (custom_of_nodup c sub)). simpl.
+  rewrite mget_merge, (tmpl_get_nodup k _ (custom_of_nodup c q)). simpl.
   unfold custom_of, tmpl_of. destruct (c_claims c) as [t|].
   - rewrite mget_render. destruct (tmpl_get k t); reflexivity.
   - reflexivity.
@@ -466,37 +466,42 @@ Proof. unfold spec_ttl, ttl_of. destruct (c_ttl c); reflexivity. Qed.
 Lemma reuse_eq c : (c_cache c && (cache_leeway <? ttl_of c)%Z) = reuse_allowed c.
 Proof. unfold reuse_allowed. rewrite <- (ttl_eq c). reflexivity. Qed.
 
-Definition fresh_claims (c : config) (sub : string) (now : Z) (n : nat) : cmap :=
-  sys_claims (issuer c) sub (ttl_of c) now (VJti n) (merge (custom_of c sub) []).
+Lemma resolve_spec q v : resolve q v = spec_value q v.
+Proof. destruct v; reflexivity. Qed.
 
-Lemma fresh_claims_nodup c sub now n : NoDup (map fst (fresh_claims c sub now n)).
+Definition fresh_claims (c : config) (q : req) (now : Z) (n : nat) : cmap :=
+  sys_claims (issuer c) (q_sub q) (ttl_of c) now (VJti n) (merge (custom_of c q) []).
+
+Lemma fresh_claims_nodup c q now n : NoDup (map fst (fresh_claims c q now n)).
 Proof. apply sys_claims_nodup, merge_nodup. constructor. Qed.
 
 Lemma claim_is_get k v m : mget k m = Some v -> claim_is k v m = true.
 Proof. unfold claim_is. intros ->. apply cval_eqb_refl. Qed.
 
-Lemma fresh_claims_ok c sub now n :
-  claims_ok c sub (fresh_claims c sub now n) = true /\ times_exact c now (fresh_claims c sub now n) = true.
+Lemma fresh_claims_ok c q now n :
+  claims_sys c q (fresh_claims c q now n) = true /\ claims_custom c q (fresh_claims c q now n) = true /\
+  times_exact c now (fresh_claims c q now n) = true.
 Proof.
-  set (m := fresh_claims c sub now n).
-  pose proof (sys_claims_get (issuer c) sub (ttl_of c) now (VJti n) (merge (custom_of c sub) [])) as G.
-  cbv zeta in G. fold (fresh_claims c sub now n) in G. fold m in G.
+  set (m := fresh_claims c q now n).
+  pose proof (sys_claims_get (issuer c) (q_sub q) (ttl_of c) now (VJti n) (merge (custom_of c q) [])) as G.
+  cbv zeta in G. fold (fresh_claims c q now n) in G. fold m in G.
   destruct G as (G1 & G2 & G3 & G4 & G5 & G6).
-  split.
-  - unfold claims_ok. rewrite !andb_true_iff. repeat split.
+  split; [|split].
+  - unfold claims_sys. rewrite !andb_true_iff. repeat split.
     + apply claim_is_get. exact G1.
     + apply claim_is_get. exact G2.
     + unfold claim_int. rewrite G3, G4, G5, ttl_eq. rewrite !andb_true_iff.
       pose proof (exp_minus_iat now (ttl_of c)) as B. unfold second in B.
       repeat split; [apply Z.eqb_refl | apply Z.leb_le; apply B | apply Z.leb_le; apply B].
     + rewrite G6. reflexivity.
+  - unfold claims_custom. rewrite andb_true_iff. split.
     + apply forallb_forall. intros [k v] Hin. cbn [fst snd].
       destruct (str_in k reserved) eqn:R; [reflexivity|]. cbn [orb].
       apply str_in_false in R.
-      pose proof (mget_in k v m (fresh_claims_nodup c sub now n) Hin) as Hg.
+      pose proof (mget_in k v m (fresh_claims_nodup c q now n) Hin) as Hg.
       unfold m, fresh_claims in Hg. rewrite sys_claims_other in Hg by exact R.
       rewrite mget_custom in Hg. destruct (tmpl_get k (tmpl_of c)) as [v0|]; simpl in Hg; [|discriminate].
-      inversion Hg; subst v. unfold resolve. apply cval_eqb_refl.
+      inversion Hg; subst v. rewrite resolve_spec. apply cval_eqb_refl.
     + apply forallb_forall. intros [k v0] Hin. cbn [fst snd].
       destruct (str_in k reserved) eqn:R; [reflexivity|]. cbn [orb].
       apply str_in_false in R. unfold m, fresh_claims. rewrite sys_claims_other by exact R.
@@ -519,24 +524,25 @@ Qed.
 
 Lemma ckey_eqb_eq a b : ckey_eqb a b = true -> a = b.
 Proof.
-  destruct a as [a1 a2 a3 a4 a5 a6 a7], b as [b1 b2 b3 b4 b5 b6 b7]. unfold ckey_eqb. simpl.
-  rewrite !andb_true_iff. intros [[[[[[H1 H2] H3] H4] H5] H6] H7].
-  apply String.eqb_eq in H1, H2, H3, H4. apply Z.eqb_eq in H6. subst.
-  assert (a5 = b5).
-  { destruct a5 as [x|], b5 as [y|]; simpl in H5; try discriminate; [|reflexivity].
-    apply keyref_eqb_eq in H5. subst. reflexivity. }
+  destruct a as [a1 a2 a3 a4 a5 a6 a7 a8 a9], b as [b1 b2 b3 b4 b5 b6 b7 b8 b9]. unfold ckey_eqb. simpl.
+  rewrite !andb_true_iff. intros [[[[[[[[H1 H2] H3] H4] H5] H6] H7] H8] H9].
+  apply String.eqb_eq in H1, H2, H3, H4, H5, H6. apply Z.eqb_eq in H8. subst.
   assert (a7 = b7).
   { destruct a7 as [x|], b7 as [y|]; simpl in H7; try discriminate; [|reflexivity].
-    apply tmpl_eqb_eq in H7. subst. reflexivity. }
+    apply keyref_eqb_eq in H7. subst. reflexivity. }
+  assert (a9 = b9).
+  { destruct a9 as [x|], b9 as [y|]; simpl in H9; try discriminate; [|reflexivity].
+    apply tmpl_eqb_eq in H9. subst. reflexivity. }
   subst. reflexivity.
 Qed.
 
-Lemma cache_get_in k c t : cache_get k c = Some t -> In (k, t) c.
+Lemma cache_get_in k clock c t : cache_get k clock c = Some t -> exists e, In (k, t, e) c /\ (clock < e)%Z.
 Proof.
-  induction c as [|[k' t'] r IH]; simpl; intro H; [discriminate|].
+  induction c as [|[[k' t'] e'] r IH]; simpl; intro H; [discriminate|].
   destruct (ckey_eqb k k') eqn:E.
-  - apply ckey_eqb_eq in E. inversion H; subst. left. reflexivity.
-  - right. apply IH. exact H.
+  - apply ckey_eqb_eq in E. subst k'. destruct (clock <? e')%Z eqn:L; [|discriminate].
+    inversion H; subst. exists e'. split; [left; reflexivity | apply Z.ltb_lt; exact L].
+  - destruct (IH H) as [e [Hin Hl]]. exists e. split; [right; exact Hin | exact Hl].
 Qed.
 
 Lemma cmap_eqb_refl m : cmap_eqb m m = true.
@@ -624,24 +630,24 @@ Proof.
   - intro H. inversion H. auto.
 Qed.
 
-Lemma sign_active c a rs alg sub now n :
+Lemma sign_active c a rs alg q now n :
   spec_alg (r_key a) = Some alg ->
-  sign (state_of (a, rs)) (issuer c) sub (ttl_of c) now (VJti n) (custom_of c sub) =
+  sign (state_of (a, rs)) (issuer c) (q_sub q) (ttl_of c) now (VJti n) (custom_of c q) =
   Ok {| t_alg := alg; t_kid := kid_of a; t_typ := "JWT"; t_key := Priv (r_key a);
-        t_claims := fresh_claims c sub now n |}.
+        t_claims := fresh_claims c q now n; t_hdr := "" |}.
 Proof.
   intro H. unfold sign, state_of, spec_jwk. cbn [fst snd s_jwk s_key j_alg j_kid]. rewrite H.
   rewrite (can_sign_active a alg H). reflexivity.
 Qed.
 
 (** the claims specification depends on a configuration only through issuer, ttl and template *)
-Lemma claims_ok_ext c1 c2 sub m :
+Lemma claims_ext c1 c2 q m :
   issuer c1 = issuer c2 -> ttl_of c1 = ttl_of c2 -> c_claims c1 = c_claims c2 ->
-  claims_ok c1 sub m = claims_ok c2 sub m.
+  claims_sys c1 q m = claims_sys c2 q m /\ claims_custom c1 q m = claims_custom c2 q m.
 Proof.
-  intros Hi Ht Hc. unfold claims_ok, tmpl_of. rewrite !ttl_eq.
+  intros Hi Ht Hc. unfold claims_sys, claims_custom, tmpl_of. rewrite !ttl_eq.
   change (spec_iss c1) with (issuer c1). change (spec_iss c2) with (issuer c2).
-  rewrite Hi, Ht, Hc. reflexivity.
+  rewrite Hi, Ht, Hc. split; reflexivity.
 Qed.
 
 Lemma with_config_spec c o :
@@ -652,168 +658,311 @@ Proof.
   rewrite (Z.leb_antisym second t). unfold second. destruct (1000000000 <? t)%Z; reflexivity.
 Qed.
 
+Lemma target_spec c twin ov :
+  target c twin ov = match spec_target c twin ov with Some ce => Ok ce | None => Err end.
+Proof.
+  unfold target, spec_target, with_name. destruct twin.
+  - destruct (c_twin c) as [n|]; [|reflexivity]. destruct ov as [o|]; [apply with_config_spec | reflexivity].
+  - destruct ov as [o|]; [apply with_config_spec | reflexivity].
+Qed.
+
+Lemma token_flag c cur seen clock q now t v :
+  token_ok c cur seen clock q now t v = v && token_ok c cur seen clock q now t true.
+Proof. unfold token_ok, token_prop. destruct v; reflexivity. Qed.
+
 Section Histories.
-  Variable fixed : bool.           (* is the repair of C16-F1 in place *)
+  Variable fx : fixes.             (* which repairs are in place *)
   Variable c : config.             (* the catalogue (prototype) configuration *)
   Variable A : list raw_entry.     (* the active entries of all accepted files of the run *)
   Hypothesis no_clash :
-    fixed = false -> c_cache c = true -> forall a b, In a A -> In b A -> clash a b = false.
+    fx_F1 fx = false -> c_cache c = true -> forall a b, In a A -> In b A -> clash a b = false.
 
-  (** prototype and variants share signer, cache and registry *)
+  (** prototype, twin and variants share key id, cache and registry *)
   Definition same_base (ce : config) : Prop :=
-    c_cache ce = c_cache c /\ issuer ce = issuer c /\ c_before ce = c_before c /\ c_after ce = c_after c.
+    c_cache ce = c_cache c /\ c_keyid ce = c_keyid c /\ c_before ce = c_before c /\ c_after ce = c_after c.
 
-  Definition cached_ok (seen : list token) (e : ckey * token) : Prop :=
-    let '(key, t) := e in
-    In t seen /\
-    exists ce sub b, same_base ce /\ reuse_allowed ce = true /\
-      key = {| ck_kid := t_kid t; ck_alg := t_alg t; ck_iss := issuer ce; ck_sub := sub;
-               ck_key := if fixed then Some (r_key b) else None; ck_ttl := ttl_of ce; ck_claims := c_claims ce |} /\
-      claims_ok ce sub (t_claims t) = true /\
+  Definition cached_ok (seen : seen_t) (e : ckey * token * Z) : Prop :=
+    let '(key, t, expires) := e in
+    exists issued ce q b,
+      In (t, issued) seen /\ expires = (issued + (ttl_of ce - cache_leeway))%Z /\
+      same_base ce /\ reuse_allowed ce = true /\
+      key = {| ck_kid := t_kid t; ck_alg := t_alg t; ck_iss := issuer ce;
+               ck_sub := q_sub q; ck_out := q_out q; ck_attr := q_attr q;
+               ck_key := if fx_F1 fx then Some (r_key b) else None; ck_ttl := ttl_of ce; ck_claims := c_claims ce |} /\
+      claims_sys ce q (t_claims t) = true /\ claims_custom ce q (t_claims t) = true /\
       In b A /\ kid_of b = t_kid t /\ spec_alg (r_key b) = Some (t_alg t) /\
-      t_key t = Priv (r_key b) /\ t_typ t = "JWT".
+      t_key t = Priv (r_key b) /\ t_typ t = "JWT" /\ t_hdr t = "".
 
-  Record winv (cur : raw_entry * list raw_entry) (seen : list token) (w : world) : Prop := {
+  Record winv (cur : raw_entry * list raw_entry) (seen : seen_t) (w : world) : Prop := {
     wi_state : w_st w = state_of cur;
     wi_in : In (fst cur) (snd cur);
     wi_alg : exists alg, spec_alg (r_key (fst cur)) = Some alg;
     wi_A : In (fst cur) A;
-    wi_jti : forall t, In t seen -> exists n, jti_of t = Some (VJti n) /\ n < w_minted w;
+    wi_jti : forall t i, In (t, i) seen -> exists n, jti_of t = Some (VJti n) /\ n < w_minted w;
     wi_cache : forall e, In e (w_cache w) -> cached_ok seen e }.
 
   Lemma same_jti_self t n : jti_of t = Some (VJti n) -> same_jti t t = true.
   Proof. unfold same_jti. intros ->. simpl. apply Nat.eqb_refl. Qed.
 
-  Lemma jwks_base ce w : same_base ce -> jwks ce w = jwks c w.
-  Proof. intros (_ & _ & Hb & Ha). unfold jwks. rewrite Hb, Ha. reflexivity. Qed.
-
-  Lemma cached_mono seen t e : cached_ok seen e -> cached_ok (t :: seen) e.
+  Lemma cached_mono seen x e : cached_ok seen e -> cached_ok (x :: seen) e.
   Proof.
-    destruct e as [k u]. simpl. intros (H1 & H2). split; [right; exact H1 | exact H2].
+    destruct e as [[k u] ex]. simpl. intros (i & ce & q & b & H1 & H2). exists i, ce, q, b.
+    split; [right; exact H1 | exact H2].
   Qed.
 
-  (** Execute on the prototype or a variant with effective configuration [ce] *)
-  Lemma exec_ok ce cur seen w sub now :
+  (** a reload keeps the invariant, for the store the specification says is then current *)
+  Lemma reload_winv ce cur seen w f :
+    c_keyid ce = c_keyid c ->
+    winv cur seen w ->
+    incl (accepted_of (c_keyid c) [f]) A ->
+    winv (match spec_accept (c_keyid c) f with Some c' => c' | None => cur end) seen (fst (reload ce w f)) /\
+    w_cache (fst (reload ce w f)) = w_cache w /\ w_minted (fst (reload ce w f)) = w_minted w /\
+    w_clock (fst (reload ce w f)) = w_clock w.
+  Proof.
+    intros Hk Hw Hincl. unfold reload. rewrite Hk.
+    destruct (load (c_keyid c) f) as [st| |] eqn:L.
+    - apply load_sound in L as [cur' [Hacc ->]]. rewrite Hacc. simpl.
+      split; [|split; [|split]]; try reflexivity.
+      destruct cur' as [a' rs']. simpl in Hincl. rewrite Hacc in Hincl.
+      destruct (spec_accept_good _ _ _ _ Hacc) as [Hin' Halg'].
+      destruct Hw. constructor; simpl; try assumption; try reflexivity. apply Hincl. left. reflexivity.
+    - destruct (spec_accept (c_keyid c) f) as [cur'|] eqn:Hacc.
+      + apply load_complete in Hacc. rewrite Hacc in L. discriminate.
+      + simpl. split; [exact Hw|]. split; [|split]; reflexivity.
+    - destruct (spec_accept (c_keyid c) f) as [cur'|] eqn:Hacc.
+      + apply load_complete in Hacc. rewrite Hacc in L. discriminate.
+      + simpl. split; [exact Hw|]. split; [|split]; reflexivity.
+  Qed.
+
+  Lemma accepted_app kid l1 l2 : accepted_of kid (l1 ++ l2)%list = (accepted_of kid l1 ++ accepted_of kid l2)%list.
+  Proof.
+    induction l1 as [|f r IH]; simpl; [reflexivity|].
+    destruct (spec_accept kid f) as [[a rs]|]; simpl; rewrite IH; reflexivity.
+  Qed.
+
+  Lemma reloads_winv ce mids : forall cur seen w,
+    c_keyid ce = c_keyid c ->
+    winv cur seen w ->
+    incl (accepted_of (c_keyid c) mids) A ->
+    winv (spec_reloads (c_keyid c) cur mids) seen (reloads ce w mids) /\
+    w_cache (reloads ce w mids) = w_cache w /\ w_minted (reloads ce w mids) = w_minted w /\
+    w_clock (reloads ce w mids) = w_clock w.
+  Proof.
+    induction mids as [|f r IH]; intros cur seen w Hk Hw Hincl; [simpl; split; [exact Hw|]; split; [|split]; reflexivity|].
+    unfold reloads, spec_reloads. cbn [fold_left].
+    fold (reloads ce (fst (reload ce w f)) r).
+    fold (spec_reloads (c_keyid c) (match spec_accept (c_keyid c) f with Some c' => c' | None => cur end) r).
+    change (f :: r) with ([f] ++ r)%list in Hincl. rewrite accepted_app in Hincl.
+    destruct (reload_winv ce cur seen w f Hk Hw) as (Hw1 & Hc1 & Hm1 & Hk1).
+    { intros x Hx. apply Hincl. apply in_or_app. left. exact Hx. }
+    destruct (IH _ seen _ Hk Hw1) as (Hw2 & Hc2 & Hm2 & Hk2).
+    { intros x Hx. apply Hincl. apply in_or_app. right. exact Hx. }
+    split; [exact Hw2|]. rewrite Hc2, Hm2, Hk2. auto.
+  Qed.
+
+  (** if none of the files is acceptable nothing changes *)
+  Lemma reloads_none ce mids : forall cur w,
+    c_keyid ce = c_keyid c ->
+    accepted_of (c_keyid c) mids = [] ->
+    reloads ce w mids = w /\ spec_reloads (c_keyid c) cur mids = cur.
+  Proof.
+    induction mids as [|f r IH]; intros cur w Hk Hacc; [split; reflexivity|].
+    simpl in Hacc. destruct (spec_accept (c_keyid c) f) as [[a rs]|] eqn:E; [discriminate|].
+    unfold reloads, spec_reloads. cbn [fold_left]. rewrite E.
+    assert (Hr : fst (reload ce w f) = w).
+    { unfold reload. rewrite Hk. destruct (load (c_keyid c) f) as [st| |] eqn:L; try reflexivity.
+      exfalso. eapply load_not_ok; eassumption. }
+    rewrite Hr. apply IH; assumption.
+  Qed.
+
+  (** Execute on the prototype, the twin or a variant with effective configuration [ce],
+      with the reloads [mids] landing between its cache lookup and its signing *)
+  Lemma exec_ok ce cur seen w q now mids :
     same_base ce ->
     winv cur seen w ->
-    exists w' t, exec fixed ce w sub now = (w', Ok t) /\
-                 token_ok ce cur seen sub now t (verifies t (jwks c w')) = true /\
-                 winv cur (t :: seen) w'.
+    incl (accepted_of (c_keyid c) mids) A ->
+    (fx_F2 fx = false -> c_cache c = true -> accepted_of (c_keyid c) mids = []) ->
+    let cur' := spec_reloads (c_keyid c) cur mids in
+    exists w' t, exec fx ce w q now mids = (w', Ok t) /\
+                 exec_judged (fun k b => token_ok ce k seen (w_clock w) q now t b) cur cur' mids
+                             (verifies t (jwks c w')) = true /\
+                 winv cur' (note t (w_clock w) seen) w' /\ w_clock w' = w_clock w.
   Proof.
-    intros Hbase [Hst Hin [alg Halg] HA Hjti Hcache]. destruct cur as [a rs]. simpl in *.
-    assert (Hpub : spec_published (c_before ce) (c_after ce) rs = spec_published (c_before c) (c_after c) rs).
-    { destruct Hbase as (_ & _ & Hb & Ha). rewrite Hb, Ha. reflexivity. }
-    unfold exec. rewrite Hst. cbn [state_of fst snd s_jwk s_key s_pub spec_jwk j_kid j_alg j_key keyref_of]. rewrite Halg.
-    set (ck := {| ck_kid := kid_of a; ck_alg := alg; ck_iss := issuer ce; ck_sub := sub;
-                  ck_key := if fixed then Some (r_key a) else None; ck_ttl := ttl_of ce; ck_claims := c_claims ce |}).
-    destruct (if c_cache ce then cache_get ck (w_cache w) else None) as [t|] eqn:Hit.
-    - (* reuse *)
+    intros Hbase Hw Hincl Hnomid cur'.
+    assert (Hkid : c_keyid ce = c_keyid c) by apply Hbase.
+    assert (Hpub : forall rs, spec_published (c_before ce) (c_after ce) rs = spec_published (c_before c) (c_after c) rs).
+    { intro rs. destruct Hbase as (_ & _ & Hb & Ha). rewrite Hb, Ha. reflexivity. }
+    destruct (reloads_winv ce mids cur seen w Hkid Hw Hincl) as (Hw1 & Hc1 & Hm1 & Hk1).
+    fold cur' in Hw1.
+    pose proof Hw as [Hst Hin [alg Halg] HA Hjti Hcache]. destruct cur as [a rs]. simpl in Hst, Hin, Halg, HA.
+    unfold exec.
+    set (key0 := key_of fx ce (w_st w) q).
+    assert (Hkey0 : key0 = {| ck_kid := kid_of a; ck_alg := alg; ck_iss := issuer ce;
+                              ck_sub := q_sub q; ck_out := q_out q; ck_attr := q_attr q;
+                              ck_key := if fx_F1 fx then Some (r_key a) else None;
+                              ck_ttl := ttl_of ce; ck_claims := c_claims ce |}).
+    { unfold key0, key_of. rewrite Hst. simpl. rewrite Halg. reflexivity. }
+    destruct (if c_cache ce then cache_get key0 (w_clock w) (w_cache w) else None) as [t|] eqn:Hit.
+    - (* reuse: the token is right for the store at the beginning *)
       assert (Hcc : c_cache ce = true) by (destruct (c_cache ce); [reflexivity | discriminate]).
-      assert (Hg : cache_get ck (w_cache w) = Some t) by (rewrite Hcc in Hit; exact Hit).
-      apply cache_get_in in Hg. pose proof (Hcache _ Hg) as Hc. simpl in Hc.
-      destruct Hc as (Hseen & ce0 & sub' & b & Hb0 & Hre0 & Hkey & Hcl0 & HbA & Hbk & Hbalg & Hbkey & Htyp).
-      unfold ck in Hkey. inversion Hkey as [[K1 K2 K3 K4 K5 K6 K7]]. subst sub'.
-      assert (Hcl : claims_ok ce sub (t_claims t) = true).
-      { rewrite (claims_ok_ext ce ce0 sub (t_claims t) K3 K6 K7). exact Hcl0. }
+      rewrite Hcc in Hit. apply cache_get_in in Hit as [ex [Hg Hlt]].
+      pose proof (Hcache _ Hg) as Hc. simpl in Hc.
+      destruct Hc as (issued & ce0 & q0 & b & Hseen & Hex & Hb0 & Hre0 & Hkey & Hcs0 & Hcc0 & HbA & Hbk & Hbalg & Hbkey & Htyp & Hhdr).
+      rewrite Hkey0 in Hkey. inversion Hkey as [[K1 K2 K3 K4 K5 K6 K7 K8 K9]].
+      assert (Hq : q0 = q) by (destruct q0, q; simpl in *; congruence). subst q0.
+      destruct (claims_ext ce ce0 q (t_claims t) K3 K8 K9) as [Hes Hec].
       assert (Hre : reuse_allowed ce = true).
-      { unfold reuse_allowed in *. rewrite ttl_eq in *. rewrite K6.
-        destruct Hbase as (Hc1 & _). destruct Hb0 as (Hc0 & _). rewrite Hc1, <- Hc0. exact Hre0. }
+      { unfold reuse_allowed in *. rewrite ttl_eq in *. rewrite K8.
+        destruct Hbase as (Hc1' & _). destruct Hb0 as (Hc0 & _). rewrite Hc1', <- Hc0. exact Hre0. }
       assert (Hsame : r_key b = r_key a).
-      { destruct fixed eqn:Hfx; [inversion K5; reflexivity|].
-        assert (Hcp : c_cache c = true) by (destruct Hbase as (Hc1 & _); rewrite <- Hc1; exact Hcc).
+      { destruct (fx_F1 fx) eqn:Hfx; [inversion K7; reflexivity|].
+        assert (Hcp : c_cache c = true) by (destruct Hbase as (Hc1' & _); rewrite <- Hc1'; exact Hcc).
         pose proof (no_clash eq_refl Hcp a b HA HbA) as Hn. unfold clash in Hn.
         rewrite Hbk, <- K1, String.eqb_refl, Hbalg, Halg, <- K2 in Hn. simpl in Hn. rewrite String.eqb_refl in Hn.
         simpl in Hn. apply negb_false_iff in Hn. apply keyref_eqb_eq in Hn. symmetry. exact Hn. }
-      exists w, t. split; [reflexivity|].
-      assert (Hver2 : verifies t (spec_published (c_before ce) (c_after ce) rs) = true).
-      { apply verifies_app.
-        apply verifies_active with (a := a); [exact Hin | symmetry; exact K1 | rewrite Hbkey, Hsame; reflexivity]. }
-      assert (Hver : verifies t (jwks c w) = true).
-      { rewrite (jwks_spec c w (a, rs) Hst). cbn [snd]. rewrite <- Hpub. exact Hver2. }
-      split.
-      + unfold token_ok. rewrite Hver. cbn [fst snd andb]. rewrite Hver2. cbn [andb].
+      exists (reloads ce w mids), t. split; [reflexivity|].
+      destruct (Hjti t issued Hseen) as [n [Hn _]].
+      assert (Hknown : known t seen = true).
+      { unfold known. apply existsb_exists. exists (t, issued). split; [exact Hseen | eapply same_jti_self; exact Hn]. }
+      assert (Htok : token_ok ce (a, rs) seen (w_clock w) q now t true = true).
+      { unfold token_ok, token_prop. rewrite Hknown. cbn [fst snd andb].
+        rewrite Hpub.
+        assert (Hv : verifies t (spec_published (c_before c) (c_after c) rs) = true).
+        { apply verifies_app.
+          apply verifies_active with (a := a); [exact Hin | symmetry; exact K1 | rewrite Hbkey, Hsame; reflexivity]. }
         assert (Hh : header_ok a t = true).
-        { unfold header_ok. rewrite <- K1, String.eqb_refl, Halg, <- K2, String.eqb_refl, Htyp, Hbkey, Hsame. simpl.
+        { unfold header_ok. rewrite <- K1, String.eqb_refl, Halg, <- K2, String.eqb_refl, Hbkey, Hsame. simpl.
           apply keyref_eqb_refl. }
-        rewrite Hh, Hcl. simpl.
-        destruct (Hjti t Hseen) as [n [Hn _]].
-        assert (He : existsb (same_jti t) seen = true).
-        { apply existsb_exists. exists t. split; [exact Hseen | eapply same_jti_self; exact Hn]. }
-        rewrite He, Hre. simpl. apply existsb_exists. exists t. split; [exact Hseen | apply token_eqb_refl].
-      + constructor; simpl; try assumption.
-        * eexists; exact Halg.
-        * intros t' [<-|Ht']; [apply Hjti; exact Hseen | apply Hjti; exact Ht'].
-        * intros e He. apply cached_mono. apply Hcache. exact He.
-    - (* mint *)
-      fold (custom_of ce sub).
-      rewrite (sign_active ce a rs alg sub now (w_minted w) Halg).
-      set (t := {| t_alg := alg; t_kid := kid_of a; t_typ := "JWT"; t_key := Priv (r_key a);
-                   t_claims := fresh_claims ce sub now (w_minted w) |}).
+        rewrite Hv, Hh, Hes, Hcs0, Hec, Hcc0, Htyp, Hhdr, Hre. simpl.
+        rewrite !andb_true_r. apply existsb_exists. exists (t, issued). split; [exact Hseen|]. cbn [fst snd].
+        rewrite token_eqb_refl. simpl. apply Z.ltb_lt. rewrite ttl_eq. rewrite K8.
+        subst ex. unfold cache_leeway, second in Hlt. lia. }
+      split; [|split].
+      + unfold exec_judged. destruct (is_nil mids) eqn:Hnil.
+        * destruct mids; [|discriminate]. simpl. rewrite token_flag, Htok, andb_true_r.
+          rewrite (jwks_spec c w (a, rs) Hst). cbn [snd]. rewrite <- Hpub.
+          unfold token_ok, token_prop in Htok. rewrite !andb_true_iff in Htok. apply Htok.
+        * rewrite Htok. reflexivity.
+      + unfold note. rewrite Hknown. exact Hw1.
+      + exact Hk1.
+    - (* mint: the token is right for the store at the end *)
+      set (w1 := reloads ce w mids) in *.
+      destruct Hw1 as [Hst1 Hin1 [alg1 Halg1] HA1 Hjti1 Hcache1].
+      destruct cur' as [a1 rs1] eqn:Ecur'. simpl in Hst1, Hin1, Halg1, HA1.
+      fold (custom_of ce q). rewrite Hst1.
+      rewrite (sign_active ce a1 rs1 alg1 q now (w_minted w1) Halg1).
+      set (t := {| t_alg := alg1; t_kid := kid_of a1; t_typ := "JWT"; t_key := Priv (r_key a1);
+                   t_claims := fresh_claims ce q now (w_minted w1); t_hdr := "" |}).
       eexists. exists t. split; [reflexivity|].
-      destruct (fresh_claims_ok ce sub now (w_minted w)) as [Hcl Hte].
-      assert (Hjt : jti_of t = Some (VJti (w_minted w))).
+      destruct (fresh_claims_ok ce q now (w_minted w1)) as (Hcs & Hcc & Hte).
+      assert (Hjt : jti_of t = Some (VJti (w_minted w1))).
       { unfold jti_of, t. simpl.
-        pose proof (sys_claims_get (issuer ce) sub (ttl_of ce) now (VJti (w_minted w)) (merge (custom_of ce sub) [])) as G.
+        pose proof (sys_claims_get (issuer ce) (q_sub q) (ttl_of ce) now (VJti (w_minted w1)) (merge (custom_of ce q) [])) as G.
         cbv zeta in G. apply G. }
-      assert (Hver : verifies t (spec_published (c_before ce) (c_after ce) rs) = true)
-        by (apply verifies_app; apply verifies_active with (a := a); [exact Hin | reflexivity | reflexivity]).
-      split.
-      + erewrite (jwks_spec c _ (a, rs)) by reflexivity. cbn [snd]. rewrite <- Hpub.
-        assert (Hh : header_ok a t = true).
-        { unfold header_ok, t. simpl. rewrite String.eqb_refl, Halg, String.eqb_refl. simpl. apply keyref_eqb_refl. }
-        assert (He : existsb (same_jti t) seen = false).
-        { apply not_true_is_false. intro E. apply existsb_exists in E as [u [Hu Hs]].
-          destruct (Hjti u Hu) as [n [Hn Hlt]]. unfold same_jti in Hs. rewrite Hjt, Hn in Hs. simpl in Hs.
-          apply Nat.eqb_eq in Hs. lia. }
-        unfold token_ok. rewrite He. cbn [fst snd]. rewrite !andb_true_iff.
-        repeat split; [exact Hver | exact Hver | exact Hh | exact Hcl | exact Hte].
-      + constructor; cbn [w_st w_cache w_minted fst snd]; try assumption; try reflexivity.
-        * eexists; exact Halg.
-        * intros t' [<-|Ht'].
-          -- exists (w_minted w). split; [exact Hjt | lia].
-          -- destruct (Hjti t' Ht') as [n [Hn Hlt]]. exists n. split; [exact Hn | lia].
+      assert (Hknown : known t seen = false).
+      { unfold known. apply not_true_is_false. intro E. apply existsb_exists in E as [[u i] [Hu Hs]].
+        destruct (Hjti u i Hu) as [n [Hn Hlt]]. cbn [fst] in Hs. unfold same_jti in Hs. rewrite Hjt, Hn in Hs. simpl in Hs.
+        apply Nat.eqb_eq in Hs. rewrite Hm1 in Hs. lia. }
+      assert (Hver : verifies t (spec_published (c_before c) (c_after c) rs1) = true)
+        by (apply verifies_app; apply verifies_active with (a := a1); [exact Hin1 | reflexivity | reflexivity]).
+      assert (Htok : token_ok ce (a1, rs1) seen (w_clock w) q now t true = true).
+      { assert (Hh : header_ok a1 t = true).
+        { unfold header_ok, t. simpl. rewrite String.eqb_refl, Halg1, String.eqb_refl. simpl. apply keyref_eqb_refl. }
+        unfold token_ok, token_prop. rewrite Hknown. cbn [fst snd]. rewrite Hpub.
+        rewrite !andb_true_iff. repeat split; first [exact Hver | exact Hh | exact Hcs | exact Hcc | exact Hte | reflexivity]. }
+      split; [|split].
+      + assert (Hjw : verifies t (jwks c {| w_st := state_of (a1, rs1);
+                        w_cache := if c_cache ce && (cache_leeway <? ttl_of ce)%Z
+                                   then (if fx_F2 fx then key_of fx ce (state_of (a1, rs1)) q else key0, t,
+                                         (w_clock w1 + (ttl_of ce - cache_leeway))%Z) :: w_cache w1 else w_cache w1;
+                        w_minted := S (w_minted w1); w_clock := w_clock w1 |}) = true).
+        { erewrite (jwks_spec c _ (a1, rs1)) by reflexivity. exact Hver. }
+        rewrite Hjw. unfold exec_judged. destruct (is_nil mids) eqn:Hnil.
+        * destruct mids; [|discriminate]. simpl in Ecur'. inversion Ecur'; subst a1 rs1. exact Htok.
+        * rewrite Htok. apply orb_true_r.
+      + unfold note. rewrite Hknown.
+        constructor; cbn [w_st w_cache w_minted fst snd]; try assumption; try reflexivity.
+        * eexists; exact Halg1.
+        * intros t' i [Heq|Ht'].
+          -- inversion Heq; subst t' i. exists (w_minted w1). split; [exact Hjt | lia].
+          -- destruct (Hjti t' i Ht') as [n [Hn Hlt]]. exists n. split; [exact Hn | rewrite Hm1; lia].
         * intros e He. rewrite reuse_eq in He.
-          destruct (reuse_allowed ce) eqn:Hre.
-          -- destruct He as [<-|He]; [| apply cached_mono; apply Hcache; exact He].
-             simpl. split; [left; reflexivity|].
-             exists ce, sub, a. unfold t, ck. simpl. repeat split; try reflexivity; try assumption; apply Hbase.
-          -- apply cached_mono. apply Hcache. exact He.
+          destruct (reuse_allowed ce) eqn:Hre; [| apply cached_mono; apply Hcache1; exact He].
+          destruct He as [<-|He]; [| apply cached_mono; apply Hcache1; exact He].
+          assert (Hkey1 : (if fx_F2 fx then key_of fx ce (state_of (a1, rs1)) q else key0) =
+                          {| ck_kid := kid_of a1; ck_alg := alg1; ck_iss := issuer ce;
+                             ck_sub := q_sub q; ck_out := q_out q; ck_attr := q_attr q;
+                             ck_key := if fx_F1 fx then Some (r_key a1) else None;
+                             ck_ttl := ttl_of ce; ck_claims := c_claims ce |}).
+          { destruct (fx_F2 fx) eqn:F2.
+            - unfold key_of. simpl. rewrite Halg1. reflexivity.
+            - assert (Hcp : c_cache c = true).
+              { destruct Hbase as (Hc1' & _). rewrite <- Hc1'. unfold reuse_allowed in Hre.
+                apply andb_true_iff in Hre. apply Hre. }
+              destruct (reloads_none ce mids (a, rs) w Hkid (Hnomid eq_refl Hcp)) as [Hw_eq Hcur_eq].
+              fold cur' in Hcur_eq. rewrite Ecur' in Hcur_eq. inversion Hcur_eq; subst a1 rs1.
+              rewrite Hkey0. rewrite Halg in Halg1. inversion Halg1; subst alg1. reflexivity. }
+          rewrite Hkey1. simpl.
+          exists (w_clock w), ce, q, a1. rewrite Hk1. unfold t. simpl.
+          repeat split; try reflexivity; try assumption; try apply Hbase. left. reflexivity.
+      + simpl. exact Hk1.
+  Qed.
+
+  Definition no_mid_accept (ops : list op) : bool :=
+    forallb (fun o => match o with
+                      | OExec _ _ _ _ mids => is_nil (accepted_of (c_keyid c) mids)
+                      | _ => true
+                      end) ops.
+
+  Lemma target_base twin ov ce : spec_target c twin ov = Some ce -> same_base ce.
+  Proof.
+    unfold spec_target, same_base.
+    assert (V : forall b o ce', spec_variant b o = Some ce' ->
+              c_cache ce' = c_cache b /\ c_keyid ce' = c_keyid b /\ c_before ce' = c_before b /\ c_after ce' = c_after b).
+    { intros b o ce' H. unfold spec_variant in H.
+      destruct (o_unknown o || match o_ttl o with Some t => negb (1000000000 <? t)%Z | None => false end); [discriminate|].
+      inversion H. simpl. repeat split. }
+    destruct twin.
+    - destruct (c_twin c) as [n|]; [|discriminate]. destruct ov as [o|]; intro H.
+      + apply V in H. simpl in H. exact H.
+      + inversion H. simpl. repeat split.
+    - destruct ov as [o|]; intro H; [apply V in H; exact H | inversion H; repeat split].
   Qed.
 
   Lemma steps_ok ops : forall cur seen w,
     winv cur seen w ->
     incl (accepted_of (c_keyid c) (files_of ops)) A ->
-    obs_ok c cur seen ops (steps fixed c w ops) = true.
+    (fx_F2 fx = false -> c_cache c = true -> no_mid_accept ops = true) ->
+    obs_ok c cur seen (w_clock w) ops (steps fx c w ops) = true.
   Proof.
-    induction ops as [|o ops IH]; intros cur seen w Hw Hincl; [reflexivity|].
-    destruct o as [ov sub now | f |].
-    - (* Execute on the prototype or a variant *)
-      cbn [steps step obs_ok]. unfold spec_target.
-      assert (Htarget : (match ov with None => Ok c | Some o => with_config c o end) =
-                        match (match ov with None => Some c | Some o => spec_variant c o end) with
-                        | Some ce => Ok ce | None => Err end).
-      { destruct ov as [o|]; [apply with_config_spec | reflexivity]. }
-      rewrite Htarget.
-      destruct (match ov with None => Some c | Some o => spec_variant c o end) as [ce|] eqn:Hce.
-      + assert (Hbase : same_base ce).
-        { destruct ov as [o|].
-          - unfold spec_variant in Hce.
-            destruct (o_unknown o || match o_ttl o with Some t => negb (1000000000 <? t)%Z | None => false end); [discriminate|].
-            inversion Hce; subst ce. unfold same_base, issuer. simpl. repeat split; reflexivity.
-          - inversion Hce; subst ce. unfold same_base. repeat split; reflexivity. }
-        destruct (exec_ok ce cur seen w sub now Hbase Hw) as (w' & t & He & Hok & Hw').
-        rewrite He. rewrite Hok. simpl. apply IH; [exact Hw' | exact Hincl].
-      + apply IH; assumption.
+    induction ops as [|o ops IH]; intros cur seen w Hw Hincl Hnm; [reflexivity|].
+    assert (Hnm' : fx_F2 fx = false -> c_cache c = true -> no_mid_accept ops = true).
+    { intros H1 H2. specialize (Hnm H1 H2). simpl in Hnm. apply andb_true_iff in Hnm. apply Hnm. }
+    destruct o as [twin ov q now mids | f | | d].
+    - (* Execute *)
+      cbn [steps step obs_ok]. rewrite target_spec.
+      cbn [files_of flat_map] in Hincl. fold (files_of ops) in Hincl. rewrite accepted_app in Hincl.
+      destruct (spec_target c twin ov) as [ce|] eqn:Hce.
+      + pose proof (target_base twin ov ce Hce) as Hbase.
+        destruct (exec_ok ce cur seen w q now mids Hbase Hw) as (w' & t & He & Hok & Hw' & Hclk).
+        { intros x Hx. apply Hincl. apply in_or_app. left. exact Hx. }
+        { intros H1 H2. specialize (Hnm H1 H2). simpl in Hnm. apply andb_true_iff in Hnm.
+          destruct Hnm as [Hnm0 _]. destruct (accepted_of (c_keyid c) mids); [reflexivity | discriminate]. }
+        rewrite He. rewrite Hok. simpl. rewrite <- Hclk. apply IH; [exact Hw' | | exact Hnm'].
+        intros x Hx. apply Hincl. apply in_or_app. right. exact Hx.
+      + apply IH; [exact Hw | | exact Hnm'].
+        intros x Hx. apply Hincl. apply in_or_app. right. exact Hx.
     - (* reload *)
-      cbn [steps step]. unfold reload. cbn [files_of flat_map app accepted_of] in Hincl.
-      change (flat_map (fun o => match o with OReload f0 => [f0] | _ => [] end) ops) with (files_of ops) in Hincl.
-      destruct (load (c_keyid c) f) as [st| |] eqn:L.
-      + apply load_sound in L as [cur' [Hacc ->]]. cbn [obs_ok]. rewrite Hacc.
-        destruct cur' as [a' rs']. rewrite Hacc in Hincl.
-        destruct (spec_accept_good _ _ _ _ Hacc) as [Hin' Halg'].
-        apply IH.
-        * destruct Hw. constructor; simpl; try assumption; try reflexivity. apply Hincl. left. reflexivity.
-        * intros x Hx. apply Hincl. right. exact Hx.
+      cbn [steps step]. cbn [files_of flat_map] in Hincl. fold (files_of ops) in Hincl.
+      change (f :: files_of ops) with ([f] ++ files_of ops)%list in Hincl. rewrite accepted_app in Hincl.
+      assert (Hk : c_keyid c = c_keyid c) by reflexivity.
+      destruct (reload_winv c cur seen w f Hk Hw) as (Hw1 & _ & _ & Hclk).
+      { intros x Hx. apply Hincl. apply in_or_app. left. exact Hx. }
+      assert (Hrest : incl (accepted_of (c_keyid c) (files_of ops)) A).
+      { intros x Hx. apply Hincl. apply in_or_app. right. exact Hx. }
+      unfold reload in *. destruct (load (c_keyid c) f) as [st| |] eqn:L.
+      + apply load_sound in L as [cur' [Hacc ->]]. cbn [obs_ok]. rewrite Hacc in *. simpl in Hw1, Hclk.
+        rewrite <- Hclk. apply IH; assumption.
       + destruct (spec_accept (c_keyid c) f) as [cur'|] eqn:Hacc.
         * apply load_complete in Hacc. rewrite Hacc in L. discriminate.
         * cbn [obs_ok]. rewrite Hacc. apply IH; assumption.
@@ -821,7 +970,7 @@ Section Histories.
         * apply load_complete in Hacc. rewrite Hacc in L. discriminate.
         * cbn [obs_ok]. rewrite Hacc. apply IH; assumption.
     - (* JWKS *)
-      cbn [steps step obs_ok]. destruct Hw as [Hst]. rewrite (jwks_spec c w cur Hst).
+      cbn [steps step obs_ok]. pose proof Hw as [Hst]. rewrite (jwks_spec c w cur Hst).
       assert (Hj : jwks_ok c cur (spec_published (c_before c) (c_after c) (snd cur)) = true).
       { unfold jwks_ok. apply andb_true_iff. split.
         - apply (list_eqb_spec jwk_eqb jwk_eqb_eq). reflexivity.
@@ -829,7 +978,12 @@ Section Histories.
           apply in_app_or in Hj as [Hj|Hj]; [rewrite (spec_others_public _ _ Hj); reflexivity|].
           apply in_app_or in Hj as [Hj|Hj]; [|rewrite (spec_others_public _ _ Hj); reflexivity].
           unfold spec_jwks in Hj. apply in_map_iff in Hj as [r [<- _]]. reflexivity. }
-      rewrite Hj. simpl. apply IH; [constructor; assumption | exact Hincl].
+      rewrite Hj. simpl. apply IH; assumption.
+    - (* the cache's clock advances *)
+      cbn [steps step obs_ok].
+      change (w_clock w + d)%Z with (w_clock {| w_st := w_st w; w_cache := w_cache w; w_minted := w_minted w; w_clock := (w_clock w + d)%Z |}).
+      apply IH; [| exact Hincl | exact Hnm'].
+      destruct Hw. constructor; assumption.
   Qed.
 End Histories.
 
@@ -847,7 +1001,7 @@ Qed.
 Lemma create_char c f :
   create c f = if ttl_valid c
                then match load (c_keyid c) f with
-                    | Ok st => Ok {| w_st := st; w_cache := []; w_minted := 0 |}
+                    | Ok st => Ok (world0 st)
                     | Err => Err | Panic => Panic end
                else Err.
 Proof.
@@ -855,37 +1009,85 @@ Proof.
   rewrite (Z.leb_antisym second t). unfold second. destruct (1000000000 <? t)%Z; reflexivity.
 Qed.
 
-(** every run outside the guard of C16-F1 meets the specification; with the repair, every run *)
-Theorem run_meets_spec_gen fixed c f ops :
-  (fixed = false -> guard_F1 c f ops = false) ->
-  run_ok c f ops (fst (run fixed c f ops)) (snd (run fixed c f ops)) = true.
+(** every run outside the guards of the (repaired) findings meets the full specification;
+    with both repairs, every run *)
+Theorem run_meets_spec_gen fx c f ops :
+  (fx_F1 fx = false -> guard_F1 c f ops = false) ->
+  (fx_F2 fx = false -> guard_F2 c ops = false) ->
+  run_ok c f ops (fst (run fx c f ops)) (snd (run fx c f ops)) = true.
 Proof.
-  intro G. unfold run, run_ok. rewrite create_char. destruct (ttl_valid c); [|reflexivity].
+  intros G1 G2. unfold run, run_ok. rewrite create_char. destruct (ttl_valid c); [|reflexivity].
   destruct (load (c_keyid c) f) as [st| |] eqn:L.
   - apply load_sound in L as [cur [Hacc ->]]. rewrite Hacc. cbn [fst snd].
     destruct cur as [a rs]. destruct (spec_accept_good _ _ _ _ Hacc) as [Hin Halg].
+    change 0%Z with (w_clock (world0 (state_of (a, rs)))).
     apply steps_ok with (A := accepted_of (c_keyid c) (f :: files_of ops)).
-    + intros Hfx Hre. apply guard_no_clash; [apply G; exact Hfx | exact Hre].
+    + intros Hfx Hre. apply guard_no_clash; [apply G1; exact Hfx | exact Hre].
     + constructor; simpl; try assumption.
       * reflexivity.
       * rewrite Hacc. left. reflexivity.
-      * intros t [].
+      * intros t i [].
       * intros e [].
     + simpl. rewrite Hacc. intros x Hx. right. exact Hx.
+    + intros H2 Hc. specialize (G2 H2). unfold guard_F2 in G2. rewrite Hc in G2. simpl in G2.
+      unfold no_mid_accept. apply forallb_forall. intros o Ho.
+      destruct o as [tw ov q now mids| | |]; try reflexivity.
+      destruct (is_nil (accepted_of (c_keyid c) mids)) eqn:E; [reflexivity|].
+      exfalso. apply not_true_iff_false in G2. apply G2. apply existsb_exists. exists (OExec tw ov q now mids).
+      split; [exact Ho | rewrite E; reflexivity].
   - destruct (spec_accept (c_keyid c) f) eqn:Hacc; [|reflexivity].
     apply load_complete in Hacc. rewrite Hacc in L. discriminate.
   - destruct (spec_accept (c_keyid c) f) eqn:Hacc; [|reflexivity].
     apply load_complete in Hacc. rewrite Hacc in L. discriminate.
 Qed.
 
-Theorem run_meets_spec c f ops :
-  guard_F1 c f ops = false ->
-  run_ok c f ops (fst (run false c f ops)) (snd (run false c f ops)) = true.
-Proof. intro G. apply run_meets_spec_gen. intros _. exact G. Qed.
+Definition fx_pinned : fixes := {| fx_F1 := false; fx_F2 := false |}.
+Definition fx_F1_only : fixes := {| fx_F1 := true; fx_F2 := false |}.
+Definition fx_all : fixes := {| fx_F1 := true; fx_F2 := true |}.
 
 Theorem run_meets_spec_fixed c f ops :
-  run_ok c f ops (fst (run true c f ops)) (snd (run true c f ops)) = true.
-Proof. apply run_meets_spec_gen. discriminate. Qed.
+  run_ok c f ops (fst (run fx_all c f ops)) (snd (run fx_all c f ops)) = true.
+Proof. apply run_meets_spec_gen; discriminate. Qed.
+
+(* ------------------------------------------------------------------ the full specification implies what the property statement fixes *)
+
+Lemma token_ok_prop c cur seen clock q now t v : token_ok c cur seen clock q now t v = true -> token_prop c cur seen clock q now t v = true.
+Proof. unfold token_ok. rewrite !andb_true_iff. tauto. Qed.
+
+Lemma jwks_ok_prop c cur ks : jwks_ok c cur ks = true -> jwks_prop c cur ks = true.
+Proof.
+  unfold jwks_ok, jwks_prop. rewrite !andb_true_iff. intros [He Hp]. split; [exact Hp|].
+  apply (list_eqb_spec jwk_eqb jwk_eqb_eq) in He. subst ks.
+  apply forallb_forall. intros e Hin. apply existsb_exists. exists e. split; [exact Hin|].
+  rewrite String.eqb_refl, keymat_eqb_refl. reflexivity.
+Qed.
+
+Lemma obs_ok_prop c ops : forall cur seen clock obs,
+  obs_ok c cur seen clock ops obs = true -> obs_prop c cur seen clock ops obs = true.
+Proof.
+  induction ops as [|o ops IH]; intros cur seen clock obs H; [reflexivity|].
+  destruct o as [twin ov q now mids | f | | d]; destruct obs as [|x obs]; simpl in *; try discriminate.
+  - destruct (spec_target c twin ov) as [ce|]; destruct x; try discriminate; try reflexivity.
+    + apply andb_true_iff in H as [H1 H2]. apply andb_true_iff. split; [|apply IH; exact H2].
+      unfold exec_judged in *. destruct (is_nil mids).
+      * apply token_ok_prop. exact H1.
+      * apply orb_true_iff in H1 as [H1|H1]; apply orb_true_iff; [left | right]; apply token_ok_prop; exact H1.
+    + apply IH. exact H.
+  - destruct (spec_accept (c_keyid c) f) as [cur'|]; destruct x; try discriminate; try reflexivity; apply IH; exact H.
+  - destruct x; try discriminate. apply andb_true_iff in H as [H1 H2]. apply andb_true_iff.
+    split; [apply jwks_ok_prop; exact H1 | apply IH; exact H2].
+  - destruct x; try discriminate. apply IH. exact H.
+Qed.
+
+Lemma run_ok_prop c f ops cr obs : run_ok c f ops cr obs = true -> run_prop c f ops cr obs = true.
+Proof.
+  unfold run_ok, run_prop. destruct (if ttl_valid c then spec_accept (c_keyid c) f else None) as [cur|]; [|reflexivity].
+  destruct cr; try reflexivity. apply obs_ok_prop.
+Qed.
+
+Theorem run_meets_property c f ops :
+  run_prop c f ops (fst (run fx_all c f ops)) (snd (run fx_all c f ops)) = true.
+Proof. apply run_ok_prop, run_meets_spec_fixed. Qed.
 
 (* ------------------------------------------------------------------ readable corollaries *)
 
@@ -967,61 +1169,100 @@ Qed.
 
 (* ------------------------------------------------------------------ C16-F1 *)
 
+(* ------------------------------------------------------------------ C16-F1, C16-F2: the pinned behaviour *)
+
+Definition q_of (sub : string) : req := {| q_sub := sub; q_out := "o"; q_attr := "a" |}.
+
 Definition f1_cfg : config :=
   {| c_keyid := "key1"; c_name := ""; c_ttl := Some 120000000000%Z; c_claims := None; c_cache := true;
-     c_before := []; c_after := [] |}.
+     c_twin := None; c_before := []; c_after := [] |}.
 Definition f1_entry (k : nat) : raw_entry :=
   {| r_key := {| k_id := k; k_kind := KEcdsa; k_size := 384 |}; r_xkid := "key1"; r_genkid := "generated";
      r_chain := []; r_chain_ok := true; r_usage_ok := true |}.
 Definition f1_ops : list op :=
-  [OExec None "alice" 1000000000000%Z; OReload (PemOk [f1_entry 11]); OJwks; OExec None "alice" 1001000000000%Z].
+  [OExec false None (q_of "alice") 1000000000000%Z []; OReload (PemOk [f1_entry 11]); OJwks;
+   OExec false None (q_of "alice") 1001000000000%Z []].
 
-(** a token handed out after the reload is signed by the replaced key and does not
-    verify against the key set published at that moment *)
+(** F1 (pinned tree): a token handed out after the reload is signed by the replaced key and
+    does not verify against the key set published at that moment *)
 Lemma F1_refuted :
   exists c f ops t,
     guard_F1 c f ops = true /\
-    nth_error (snd (run false c f ops)) 3 = Some (XToken t false) /\
-    nth_error (snd (run false c f ops)) 2 = Some (XJwks [spec_jwk (f1_entry 11)]) /\
+    nth_error (snd (run fx_pinned c f ops)) 3 = Some (XToken t false) /\
+    nth_error (snd (run fx_pinned c f ops)) 2 = Some (XJwks [spec_jwk (f1_entry 11)]) /\
     t_key t = Priv (r_key (f1_entry 10)) /\
-    run_ok c f ops (fst (run false c f ops)) (snd (run false c f ops)) = false.
+    run_prop c f ops (fst (run fx_pinned c f ops)) (snd (run fx_pinned c f ops)) = false.
 Proof.
   exists f1_cfg, (PemOk [f1_entry 10]), f1_ops.
   eexists. vm_compute. repeat split.
 Qed.
 
-(** non-vacuity: reuse is on, a reload rotates in a new active key under a new key id;
-    tokens are reused before and freshly signed after, everything verifies *)
+(** F2 (tree with the repair of F1 only): key store A; an Execute whose cache lookup sees A,
+    during which the store is replaced by B, signs with B and files the token under A's
+    cache key; after the roll-back to A the next Execute hands out the B-token although
+    only A's key is published *)
+Definition f2_entry (k : nat) (kid : string) : raw_entry :=
+  {| r_key := {| k_id := k; k_kind := KEcdsa; k_size := 256 |}; r_xkid := kid; r_genkid := "generated";
+     r_chain := []; r_chain_ok := true; r_usage_ok := true |}.
+Definition f2_cfg : config :=
+  {| c_keyid := ""; c_name := ""; c_ttl := Some 120000000000%Z; c_claims := None; c_cache := true;
+     c_twin := None; c_before := []; c_after := [] |}.
+Definition f2_ops : list op :=
+  [OExec false None (q_of "alice") 1000000000000%Z [PemOk [f2_entry 8 "key-b"]];
+   OReload (PemOk [f2_entry 7 "key-a"]); OJwks;
+   OExec false None (q_of "alice") 1001000000000%Z []].
+
+Lemma F2_refuted :
+  exists t,
+    guard_F2 f2_cfg f2_ops = true /\ guard_F1 f2_cfg (PemOk [f2_entry 7 "key-a"]) f2_ops = false /\
+    snd (run fx_F1_only f2_cfg (PemOk [f2_entry 7 "key-a"]) f2_ops) =
+      [XToken t true; XDone; XJwks [spec_jwk (f2_entry 7 "key-a")]; XToken t false] /\
+    t_kid t = "key-b" /\ t_key t = Priv (r_key (f2_entry 8 "key-b")) /\
+    run_prop f2_cfg (PemOk [f2_entry 7 "key-a"]) f2_ops
+             (fst (run fx_F1_only f2_cfg (PemOk [f2_entry 7 "key-a"]) f2_ops))
+             (snd (run fx_F1_only f2_cfg (PemOk [f2_entry 7 "key-a"]) f2_ops)) = false.
+Proof. eexists. vm_compute. repeat split. Qed.
+
+(** non-vacuity: reuse on, another key holder, a twin with another signer name, a reload
+    rotates the active key, a reload lands inside an Execute, the cache clock passes the
+    reuse window, rule-level variants *)
 Definition nv_entry (k : nat) (kid : string) : raw_entry :=
   {| r_key := {| k_id := k; k_kind := KRsa; k_size := 3072 |}; r_xkid := kid; r_genkid := "generated";
      r_chain := [7; 8]; r_chain_ok := true; r_usage_ok := true |}.
 Definition nv_cfg : config :=
   {| c_keyid := ""; c_name := "idp"; c_ttl := Some 90500000000%Z;
-     c_claims := Some [("sub", VStr "admin"); ("aud", VRaw "[""a""]"); ("who", VSubj)]; c_cache := true;
-     c_before := [PemOk [nv_entry 5 "other"]]; c_after := [] |}.
+     c_claims := Some [("sub", VStr "admin"); ("aud", VRaw "[""a""]"); ("who", VSubj); ("grp", VAttr)]; c_cache := true;
+     c_twin := Some "idp-2"; c_before := [PemOk [nv_entry 5 "other"]]; c_after := [] |}.
 Definition nv_ops : list op :=
-  [OExec None "alice" 1000500000000%Z; OExec None "alice" 1001000000000%Z;
-   OReload (PemOk [nv_entry 4 "new"; nv_entry 3 "old"]); OExec None "alice" 1002500000000%Z;
-   OExec (Some {| o_ttl := Some 30000000000%Z; o_claims := None; o_unknown := false |}) "alice" 1003000000000%Z;
-   OExec (Some {| o_ttl := None; o_claims := Some [("scope", VStr "read")]; o_unknown := false |}) "alice" 1004000000000%Z;
-   OExec (Some {| o_ttl := None; o_claims := None; o_unknown := true |}) "alice" 1005000000000%Z;
+  [OExec false None (q_of "alice") 1000500000000%Z []; OExec false None (q_of "alice") 1001000000000%Z [];
+   OExec true None (q_of "alice") 1001500000000%Z [];
+   OReload (PemOk [nv_entry 4 "new"; nv_entry 3 "old"]);
+   OExec false None (q_of "alice") 1002500000000%Z [PemOk [nv_entry 3 "old"]];
+   OWait 86000000000%Z;
+   OExec false None (q_of "alice") 1003000000000%Z [];
+   OExec false (Some {| o_ttl := Some 30000000000%Z; o_claims := None; o_unknown := false |}) (q_of "alice") 1003000000000%Z [];
+   OExec false (Some {| o_ttl := None; o_claims := Some [("scope", VOut)]; o_unknown := false |}) (q_of "alice") 1004000000000%Z [];
+   OExec false (Some {| o_ttl := None; o_claims := None; o_unknown := true |}) (q_of "alice") 1005000000000%Z [];
    OJwks].
 
 Lemma nonvacuous :
-  guard_F1 nv_cfg (PemOk [nv_entry 3 "old"]) nv_ops = false /\
-  exists t1 t2 t3 t4,
-    snd (run true nv_cfg (PemOk [nv_entry 3 "old"]) nv_ops) =
-      [XToken t1 true; XToken t1 true; XDone; XToken t2 true; XToken t3 true; XToken t4 true; XErr;
-       XJwks [spec_jwk (nv_entry 5 "other"); spec_jwk (nv_entry 4 "new"); spec_jwk (nv_entry 3 "old")]] /\
-    t_kid t1 = "old" /\ t_kid t2 = "new" /\ t_alg t2 = "PS384" /\
-    mget "sub" (t_claims t2) = Some (VStr "alice") /\ mget "who" (t_claims t2) = Some (VStr "alice") /\
-    mget "exp" (t_claims t2) = Some (VInt 1093%Z) /\
-    (* variant with ttl 30s only: the catalogue's claims, exp = iat + 30 *)
+  exists t1 t1' t2 t2' t3 t4,
+    snd (run fx_all nv_cfg (PemOk [nv_entry 3 "old"]) nv_ops) =
+      [XToken t1 true; XToken t1 true; XToken t1' true; XDone; XToken t2 true; XDone; XToken t2' true;
+       XToken t3 true; XToken t4 true; XErr;
+       XJwks [spec_jwk (nv_entry 5 "other"); spec_jwk (nv_entry 3 "old")]] /\
+    t_kid t1 = "old" /\ mget "iss" (t_claims t1) = Some (VStr "idp") /\
+    (* the twin does not get the other finalizer's token *)
+    mget "iss" (t_claims t1') = Some (VStr "idp-2") /\
+    (* signed after the reload that landed inside Execute: by "old" again, not by "new" *)
+    t_kid t2 = "old" /\ t_alg t2 = "PS384" /\ mget "grp" (t_claims t2) = Some (VStr "a") /\
+    mget "sub" (t_claims t2) = Some (VStr "alice") /\ mget "exp" (t_claims t2) = Some (VInt 1093%Z) /\
+    (* 86 s later the cached token (reusable for 85.5 s) is not handed out any more *)
+    mget "iat" (t_claims t2') = Some (VInt 1003%Z) /\
     mget "exp" (t_claims t3) = Some (VInt 1033%Z) /\ mget "who" (t_claims t3) = Some (VStr "alice") /\
-    (* variant with claims only: the catalogue's ttl (90.5 s), its own claims *)
-    mget "exp" (t_claims t4) = Some (VInt 1094%Z) /\ mget "scope" (t_claims t4) = Some (VStr "read") /\
+    mget "exp" (t_claims t4) = Some (VInt 1094%Z) /\ mget "scope" (t_claims t4) = Some (VStr "o") /\
     mget "who" (t_claims t4) = None.
-Proof. split; [vm_compute; reflexivity|]. do 4 eexists. vm_compute. repeat split. Qed.
+Proof. do 6 eexists. vm_compute. repeat split. Qed.
 
 (* ------------------------------------------------------------------ rule-level variants *)
 
@@ -1031,7 +1272,7 @@ Lemma variant_overlay c o ce :
   with_config c o = Ok ce <->
   (o_unknown o = false /\ (forall t, o_ttl o = Some t -> (second < t)%Z) /\
    ce = {| c_keyid := c_keyid c; c_name := c_name c; c_ttl := overlay (o_ttl o) (c_ttl c);
-           c_claims := overlay (o_claims o) (c_claims c); c_cache := c_cache c;
+           c_claims := overlay (o_claims o) (c_claims c); c_cache := c_cache c; c_twin := c_twin c;
            c_before := c_before c; c_after := c_after c |}).
 Proof.
   unfold with_config, overlay. destruct (o_unknown o).
@@ -1049,9 +1290,9 @@ Qed.
 
 (** a variant's tokens: exp is the variant's effective ttl (own, else the catalogue's, else
     5 minutes) after iat; custom claims come from its effective template *)
-Lemma variant_token c o ce st sub now jti t :
+Lemma variant_token c o ce st q now jti t :
   with_config c o = Ok ce ->
-  sign st (issuer ce) sub (ttl_of ce) now jti (custom_of ce sub) = Ok t ->
+  sign st (issuer ce) (q_sub q) (ttl_of ce) now jti (custom_of ce q) = Ok t ->
   let ttl := match o_ttl o with Some x => x | None => ttl_of c end in
   let tmpl := match o_claims o with Some x => x | None => tmpl_of c end in
   issuer ce = issuer c /\
@@ -1061,26 +1302,22 @@ Lemma variant_token c o ce st sub now jti t :
     (ttl / second <= exp - iat <= (ttl + 999999999) / second)%Z /\
     (forall s, ttl = (s * second)%Z -> (exp - iat = s)%Z) /\
     (forall k, ~ In k reserved ->
-       mget k (t_claims t) = option_map (resolve sub) (tmpl_get k tmpl)).
+       mget k (t_claims t) = option_map (spec_value q) (tmpl_get k tmpl)).
 Proof.
   intros W S. apply variant_overlay in W as (_ & _ & ->). cbv zeta.
-  assert (Ht : ttl_of {| c_keyid := c_keyid c; c_name := c_name c; c_ttl := overlay (o_ttl o) (c_ttl c);
-                         c_claims := overlay (o_claims o) (c_claims c); c_cache := c_cache c;
-                         c_before := c_before c; c_after := c_after c |}
-               = match o_ttl o with Some x => x | None => ttl_of c end).
-  { unfold ttl_of, overlay. simpl. destruct (o_ttl o); reflexivity. }
+  set (ce := {| c_keyid := c_keyid c; c_name := c_name c; c_ttl := overlay (o_ttl o) (c_ttl c);
+                c_claims := overlay (o_claims o) (c_claims c); c_cache := c_cache c; c_twin := c_twin c;
+                c_before := c_before c; c_after := c_after c |}) in *.
+  assert (Ht : ttl_of ce = match o_ttl o with Some x => x | None => ttl_of c end).
+  { unfold ttl_of, ce, overlay. simpl. destruct (o_ttl o); reflexivity. }
   split; [reflexivity|].
   destruct (exp_is_ttl_later _ _ _ _ _ _ _ _ S) as (iat & exp & H1 & H2 & H3 & H4 & H5).
   rewrite Ht in H4, H5. exists iat, exp. repeat split; try assumption; try apply H4.
   intros k Hk. destruct (system_claims_win _ _ _ _ _ _ _ _ S) as (_ & _ & _ & _ & _ & _ & Hc).
   rewrite (Hc k Hk).
-  pose proof (mget_custom {| c_keyid := c_keyid c; c_name := c_name c; c_ttl := overlay (o_ttl o) (c_ttl c);
-                             c_claims := overlay (o_claims o) (c_claims c); c_cache := c_cache c;
-                             c_before := c_before c; c_after := c_after c |} sub k) as M.
-  rewrite mget_merge in M. simpl in M.
-  assert (Hm : mget k [] = None) by reflexivity.
-  destruct (tmpl_get k (custom_of _ sub)) eqn:E; rewrite M;
-    unfold tmpl_of, overlay; simpl; destruct (o_claims o); reflexivity.
+  pose proof (mget_custom ce q k) as M. rewrite mget_merge in M. simpl in M.
+  destruct (tmpl_get k (custom_of ce q)) eqn:E; rewrite M;
+    unfold tmpl_of, ce, overlay; simpl; destruct (o_claims o); destruct (tmpl_get k _); simpl; try rewrite resolve_spec; reflexivity.
 Qed.
 
 (* ------------------------------------------------------------------ no panic is reachable any more *)
